@@ -389,7 +389,7 @@ def run_regex(task):
         for i, p in enumerate(parts):
             line = line + p + ("," if i + 1 < len(parts) else "")
         line = line + "]"
-        mx.re = _REX
+        rex.install(mx, _REX)
         return words_all, mx.parse_action_call(line)
 
     def on_path(ctx: Ctx, pr):
